@@ -64,6 +64,9 @@ type Term struct {
 	name string
 	args []*Term
 	hasUF bool
+	vset  []int32
+	ctSize int32 // >0: term is an ite-tree whose leaves are constants (number of leaves)
+	vsetDone bool
 }
 
 type termKey struct {
@@ -81,6 +84,7 @@ type TermTable struct {
 	False *Term
 	vars  map[string]*Term
 	ufs   map[string]ufSig
+	ufIDs map[string]int32
 }
 
 type ufSig struct {
@@ -122,6 +126,11 @@ func (tt *TermTable) mk(k termKey, a, b, c *Term, args []*Term) *Term {
 	t := &Term{id: int32(len(tt.all)), op: k.op, w: k.w, val: k.val, a: a, b: b, c: c, name: name, args: args}
 	if k.op == OpUF {
 		t.hasUF = true
+	}
+	if k.op == OpConst {
+		t.ctSize = 1
+	} else if k.op == OpIte && b.ctSize > 0 && c.ctSize > 0 && b.ctSize+c.ctSize <= 160 {
+		t.ctSize = b.ctSize + c.ctSize
 	}
 	for _, x := range []*Term{a, b, c} {
 		if x != nil && x.hasUF {
@@ -194,6 +203,19 @@ func sext(v uint64, w uint16) int64 {
 	}
 	sh := 64 - w
 	return int64(v<<sh) >> sh
+}
+
+// mapCT rebuilds a constant-leaf ite tree with f applied to every leaf.
+func (tt *TermTable) mapCT(t *Term, f func(*Term) *Term, memo map[int32]*Term) *Term {
+	if t.op == OpConst {
+		return f(t)
+	}
+	if r, ok := memo[t.id]; ok {
+		return r
+	}
+	r := tt.Ite(t.a, tt.mapCT(t.b, f, memo), tt.mapCT(t.c, f, memo))
+	memo[t.id] = r
+	return r
 }
 
 func (tt *TermTable) bin(op Op, a, b *Term) *Term {
@@ -277,6 +299,12 @@ func (tt *TermTable) bin(op Op, a, b *Term) *Term {
 			}
 		}
 		return tt.BV(r, w)
+	}
+	if b.IsConst() && a.ctSize > 1 {
+		return tt.mapCT(a, func(l *Term) *Term { return tt.bin(op, l, b) }, map[int32]*Term{})
+	}
+	if a.IsConst() && b.ctSize > 1 {
+		return tt.mapCT(b, func(l *Term) *Term { return tt.bin(op, a, l) }, map[int32]*Term{})
 	}
 	// algebraic simplifications
 	switch op {
@@ -437,6 +465,9 @@ func (tt *TermTable) Extract(a *Term, hi, lo uint16) *Term {
 	if a.IsConst() {
 		return tt.BV(a.val>>lo, w)
 	}
+	if a.ctSize > 1 {
+		return tt.mapCT(a, func(l *Term) *Term { return tt.Extract(l, hi, lo) }, map[int32]*Term{})
+	}
 	switch a.op {
 	case OpZExt:
 		iw := a.a.w
@@ -497,6 +528,9 @@ func (tt *TermTable) ZExt(a *Term, w uint16) *Term {
 	if a.op == OpZExt {
 		return tt.ZExt(a.a, w)
 	}
+	if a.ctSize > 1 {
+		return tt.mapCT(a, func(l *Term) *Term { return tt.ZExt(l, w) }, map[int32]*Term{})
+	}
 	if a.op == OpIte && (a.b.IsConst() || a.c.IsConst()) {
 		return tt.Ite(a.a, tt.ZExt(a.b, w), tt.ZExt(a.c, w))
 	}
@@ -516,6 +550,9 @@ func (tt *TermTable) SExt(a *Term, w uint16) *Term {
 	if a.op == OpZExt {
 		// sign bit known zero
 		return tt.ZExt(a.a, w)
+	}
+	if a.ctSize > 1 {
+		return tt.mapCT(a, func(l *Term) *Term { return tt.SExt(l, w) }, map[int32]*Term{})
 	}
 	return tt.mk(termKey{op: OpSExt, w: w}, a, nil, nil, nil)
 }
@@ -652,6 +689,9 @@ func (tt *TermTable) Eq(a, b *Term) *Term {
 		if ubound(a) < b.val {
 			return tt.False
 		}
+		if a.ctSize > 1 {
+			return tt.mapCT(a, func(l *Term) *Term { return tt.Eq(l, b) }, map[int32]*Term{})
+		}
 		switch a.op {
 		case OpIte:
 			if a.b.IsConst() || a.c.IsConst() {
@@ -699,6 +739,12 @@ func (tt *TermTable) cmp(op Op, a, b *Term) *Term {
 	}
 	if a == b {
 		return tt.Bool(op == OpUle || op == OpSle)
+	}
+	if b.IsConst() && a.ctSize > 1 {
+		return tt.mapCT(a, func(l *Term) *Term { return tt.cmp(op, l, b) }, map[int32]*Term{})
+	}
+	if a.IsConst() && b.ctSize > 1 {
+		return tt.mapCT(b, func(l *Term) *Term { return tt.cmp(op, a, l) }, map[int32]*Term{})
 	}
 	switch op {
 	case OpUlt:
@@ -994,4 +1040,104 @@ func (t *Term) String() string {
 		return x.smtBody(func(y *Term) string { return f(y, d+1) })
 	}
 	return f(t, 0)
+}
+
+// ---------------------------------------------------------------- variable sets (for constraint independence)
+
+// varSet returns the sorted ids of the variables (and UF symbols, as pseudo variables) under t.
+func (tt *TermTable) varSet(t *Term) []int32 {
+	if t.vsetDone {
+		return t.vset
+	}
+	switch t.op {
+	case OpConst:
+	case OpVar:
+		t.vset = []int32{t.id}
+	case OpUF:
+		sym := tt.ufSym(t.name)
+		set := []int32{sym}
+		for _, a := range t.args {
+			set = mergeSets(set, tt.varSet(a))
+		}
+		t.vset = set
+	default:
+		var set []int32
+		if t.a != nil {
+			set = tt.varSet(t.a)
+		}
+		if t.b != nil {
+			set = mergeSets(set, tt.varSet(t.b))
+		}
+		if t.c != nil {
+			set = mergeSets(set, tt.varSet(t.c))
+		}
+		t.vset = set
+	}
+	t.vsetDone = true
+	return t.vset
+}
+
+func (tt *TermTable) ufSym(name string) int32 {
+	if tt.ufIDs == nil {
+		tt.ufIDs = map[string]int32{}
+	}
+	if id, ok := tt.ufIDs[name]; ok {
+		return id
+	}
+	id := int32(-2 - len(tt.ufIDs))
+	tt.ufIDs[name] = id
+	return id
+}
+
+func mergeSets(a, b []int32) []int32 {
+	if len(a) == 0 {
+		return b
+	}
+	if len(b) == 0 {
+		return a
+	}
+	// fast path: b subset-of a or equal slices
+	if len(a) == len(b) && &a[0] == &b[0] {
+		return a
+	}
+	out := make([]int32, 0, len(a)+len(b))
+	i, j := 0, 0
+	for i < len(a) && j < len(b) {
+		switch {
+		case a[i] == b[j]:
+			out = append(out, a[i])
+			i++
+			j++
+		case a[i] < b[j]:
+			out = append(out, a[i])
+			i++
+		default:
+			out = append(out, b[j])
+			j++
+		}
+	}
+	out = append(out, a[i:]...)
+	out = append(out, b[j:]...)
+	if len(out) == len(a) {
+		return a
+	}
+	if len(out) == len(b) {
+		return b
+	}
+	return out
+}
+
+func setsIntersect(a, b []int32) bool {
+	i, j := 0, 0
+	for i < len(a) && j < len(b) {
+		switch {
+		case a[i] == b[j]:
+			return true
+		case a[i] < b[j]:
+			i++
+		default:
+			j++
+		}
+	}
+	return false
 }
